@@ -8,7 +8,11 @@ import ast
 from dataclasses import dataclass
 from typing import Any
 
+import itertools
+
 import z3
+
+_dsz = itertools.count()
 
 
 class Ty:
@@ -165,19 +169,23 @@ class TEnum(Ty):
 
 @dataclass(frozen=True)
 class TDict(Ty):
-	"""dict as (domain array, value array).  Iteration order is not modelled here."""
+	"""dict as (domain array, value array, size).  Iteration order is not modelled here."""
 	key: Ty
 	val: Ty
 	def dtname(self): return 'Dict_' + _san(str(self.key)) + '__' + _san(str(self.val))
 	def sort(self):
 		n = self.dtname()
-		return _mk_dt(n, [(f'mk_{n}', [(f'{n}_dom', z3.ArraySort(self.key.sort(), z3.BoolSort())), (f'{n}_val', z3.ArraySort(self.key.sort(), self.val.sort()))])])
+		return _mk_dt(n, [(f'mk_{n}', [(f'{n}_dom', z3.ArraySort(self.key.sort(), z3.BoolSort())), (f'{n}_val', z3.ArraySort(self.key.sort(), self.val.sort())), (f'{n}_size', z3.IntSort())])])
 	def name(self): return f'dict[{self.key}, {self.val}]'
-	def mk(self, dom, val): return self.sort().constructor(0)(dom, val)
+	def mk(self, dom, val, size=None):
+		if size is None:
+			size = z3.Const(f'dsize!{next(_dsz)}', z3.IntSort())  # unknown size (merge / comprehension results)
+		return self.sort().constructor(0)(dom, val, size)
 	def dom(self, t): return self.sort().accessor(0, 0)(t)
 	def vals(self, t): return self.sort().accessor(0, 1)(t)
+	def size(self, t): return self.sort().accessor(0, 2)(t)
 	def empty(self):
-		return self.mk(z3.K(self.key.sort(), z3.BoolVal(False)), z3.K(self.key.sort(), default_term(self.val)))
+		return self.mk(z3.K(self.key.sort(), z3.BoolVal(False)), z3.K(self.key.sort(), default_term(self.val)), z3.IntVal(0))
 
 
 INT, BOOL, STR, FLOAT, NONE = TInt(), TBool(), TStr(), TFloat(), TNone()
